@@ -11,7 +11,10 @@
     policy variables.  `AgreesOutside`: the two models have the same exogenous variables with the same distributions,
     and every variable outside `Δ_π` has the same mechanism (same observed arguments, same exogenous arguments, same
     function).  At the variables in `Δ_π` the mechanism is arbitrary (any function of any observed and exogenous
-    arguments that `Compatible` with `G_π` allows).
+    arguments that `Compatible` with `G_π` allows).  A source domain in which a variable of `Δ_π` has a different
+    NOISE DISTRIBUTION is represented by listing the source's extra exogenous variables in the common `noise` list: the
+    target model simply does not read them (an exogenous variable that no mechanism reads is allowed and does not
+    change any probability), the source's mechanism at that variable reads them instead of the target's.
   * selection nodes are markers, not causes: in the model of a source domain a selection node is a constant with one
     value, and no mechanism reads it (`SelectionInert`);
   * the distributions an answer is evaluated on (`FscmFamily.env`): the population tag `π` of a leaf `P^π(…)` reads the
